@@ -122,20 +122,38 @@ def missing_case(case):
         spec = {"gemini": ["MMD", "pre_psd", False]}
     else:
         spec = {"kernel": "pre_psd"}
-    model, y, _ = C.build(name, spec, X, seed)
-    for call in ("fit", "score"):
-        try:
-            with warnings.catch_warnings():
-                warnings.simplefilter("ignore")
-                if call == "fit":
-                    model.fit(X, None)
-                else:
-                    model.fit(X, y)
-                    model.score(X, None)
-            v.append(violation("missing_precomputed_matrix_is_not_an_error", {"call": call}, call=call, **where))
-        except (ValueError, TypeError):
-            pass
-    return {"v": v, "nt": [case], "stats": {"evals": 2}, "sample": {"estimator": name, "spec": spec}}
+    shapes = [X] + ([seams.tiny_data(5, 5, seed + 61)] if name == "Kauri" else [])       # Kauri also on square data (n == d: X itself looks like a matrix)
+    for Xs in shapes:
+        model, y, _ = C.build(name, spec, Xs, seed)
+        for call in ("fit", "score"):
+            try:
+                with warnings.catch_warnings():
+                    warnings.simplefilter("ignore")
+                    if call == "fit":
+                        model.fit(Xs, None)
+                        got = _state(model)
+                    else:
+                        model.fit(Xs, y)
+                        got = model.score(Xs, None)
+                # not refused: say what was used instead, so that only the documented fallback (linear kernel) is a known finding
+                fallback = "other"
+                if name == "Kauri":
+                    lin, _, _ = C.build("Kauri", {"kernel": "linear"}, Xs, seed)
+                    with warnings.catch_warnings():
+                        warnings.simplefilter("ignore")
+                        if call == "fit":
+                            ref_ = _state(lin.fit(Xs))
+                            same = all(k in got and np.array_equal(ref_[k], got[k]) for k in ref_)
+                        else:
+                            lin.tree_, lin.labels_ = model.tree_, model.labels_
+                            lin.n_features_in_ = model.n_features_in_
+                            same = abs(lin.score(Xs) - got) <= 1e-9 * max(1.0, abs(got))
+                    fallback = "linear_kernel" if same else "other"
+                v.append(violation("missing_precomputed_matrix_is_not_an_error", {"call": call, "used_instead": fallback, "shape": list(Xs.shape)},
+                                   call=call, fallback=fallback, **where))
+            except (ValueError, TypeError):
+                pass
+    return {"v": v, "nt": [case], "stats": {"evals": 2 * len(shapes)}, "sample": {"estimator": name, "spec": spec}}
 
 
 def _state(model):
